@@ -726,6 +726,18 @@ def run_case(case):
 
     LABELS.clear(); LABELS.update({lab_of(case)(n): n for n in case['nodes']} if case.get('strlabels') else {})
     gen0 = mkgen(case)
+    if case.get('prior_other'):
+        # the process object was first run by a dynamics object of the *other* class (an experiment of its own), then handed to this one
+        O = SynchronousDynamics if case['dyn'] == 'sto' else StochasticDynamics
+        top.setMaximumTime(case['prior_other'].get('maxT', case['maxT']))
+        try:
+            O(top, mkgen(case)).set(case['params']).run(fatal=True)
+            info['hist_done'] = 1
+        except Exception as ex_:
+            info['hist_exc'] = f"{type(ex_).__name__}: {ex_}"
+        sr.lines.clear(); sr.recent.clear(); sr.values.clear(); sr.nspecial = 0
+        top.setMaximumTime(case['maxT'])
+        st['fresh_check'] = True
     d = D(top, gen0)
     # C04 at the level of the heap itself (whatever API put the entry there): a live entry that is popped must be the one with the
     # smallest time among the live pending entries and, among those with that time, the one pushed first
